@@ -133,8 +133,11 @@ def run(tier="quick"):
             chk.ob("H1", impl, site, d is None, loc=fn.loc(fn.body),
                    detail="%s differs from its published definition (%s): %s" % (impl, ref, d),
                    proof="normal forms identical (%d chars)" % len(repr(nf)))
-            chk.ob("H4", impl, "pure[%s]" % label, not ev.globals_read, loc=fn.loc(fn.body),
-                   detail="%s reads global state %s" % (impl, sorted(ev.globals_read)),
+            # the diagnostic level and stream are read by the expansion of a D_/REQUIRE print only; a value that depended on
+            # them would already differ from the reference under H1 (the condition would appear in the normal form)
+            impure = sorted(g_ for g_ in ev.globals_read if g_ not in ("libast_debug_level", "stderr"))
+            chk.ob("H4", impl, "pure[%s]" % label, not impure, loc=fn.loc(fn.body),
+                   detail="%s reads global state %s" % (impl, impure),
                    proof="only parameters and locals are read")
             if impl == "spifhash_jenkinsLE":
                 wide = [(n, w) for n, w in ev.loads if w > 8]
